@@ -67,7 +67,7 @@ pub fn gen_limit(c: &mut Choices) -> LimitCase {
             let (defs, call, name): (String, String, &str) = match shape {
                 0 => (format!("fn rec(n: Int64{params}): Int64 {{\n{locals}    if n == LIMIT {{ return {sum}; }}\n    let r = rec(n + 1{pass});\n    r + {sum}\n}}\n"), format!("rec(0{tv})"), "plain"),
                 1 => (
-                    format!("fn ra(n: Int64{params}): Int64 {{\n{locals}    if n == LIMIT {{ return {sum}; }}\n    rb(n + 1{pass}) + 1\n}}\nfn rb(n: Int64{params}): Int64 {{\n    ra(n + 1{pass}) + {sum}\n}}\n"),
+                    format!("fn ra(n: Int64{params}): Int64 {{\n{locals}    if n == LIMIT {{ return {sum}; }}\n    rb(n + 1{pass}) + 1\n}}\nfn rb(n: Int64{params}): Int64 {{\n{locals}    ra(n + 1{pass}) + {sum}\n}}\n"),
                     format!("ra(0{tv})"),
                     "mutual",
                 ),
@@ -299,7 +299,7 @@ pub fn main(mode: Mode) -> i32 {
             ctx.rule = "cases: (stack) unbounded recursion — plain, mutual, generic, through a trait object, through a lambda stored in a class, with deep expression temporaries — with generated frame shapes (0-400 locals, by-value tuple parameters of 0-512 words), on the main thread and on a spawned thread, each with a bounded partner program (same shape, depth 20) that must run to completion; (heap) retention loops (Vec of arrays, linked list with payload arrays, strings) that keep > 600 MiB alive under a 16-128 MiB heap, with a 3-round partner; single allocations (Array::fill/zero, Vec::new_with_capacity) over element sizes 1/3/4/8/24 bytes with lengths from {negative, 10^8, 2^29, 2^31, 2^32, 1431655766, 2^60-1, 2^61, 2^61+1, Int64 max, …}; x collectors {swiper, copy, sweep, zero} x heap sizes x both code generators. oracle: exit status 107 'stack overflow' resp. 106 'out of memory' (for impossible sizes 106 or 109 'overflow') with a stack trace and the output printed before — never a signal, a hang, a runtime panic or a successful run with a bogus object; partner programs exit 0. non-trivial = every case (each reaches the limit by construction); distinct by (source, collector, flags) hash".into();
             ctx.run_regressions(&p);
             ctx.run_known_reproducers(&p);
-            let n = ctx.n(160, 3000);
+            let n = ctx.n(100, 3000);
             ctx.run_search(&p, n, 30, 0);
             ctx.require_class("limits/family:stack:plain:main-thread");
             ctx.finish()
